@@ -49,7 +49,9 @@ def ref_base_ok(b, log):
 
 
 FOREIGN_OPERANDS = [3, 2.0, 0, "x", None, True, (1,), [1], object(), complex(0, 1), float("nan")]
-EXPONENTS = list(range(-3, 7)) + [float(k) for k in range(-3, 7)] + [0.5, 1.5, 2.5, -0.5, 2.0000001, 1e-9,
+NEAR_INTEGERS = [3.0000000000000004, 0.9999999999999999, 1.0000000000000002, 2.0000000000001, 1.9999999999999998,
+                 4.000000000000001, 1e15 + 0.5, 0.1 * 3 * 10, 5.000000000001, 1e-300, 7 - 1e-12]
+EXPONENTS = list(range(-3, 7)) + [float(k) for k in range(-3, 7)] + NEAR_INTEGERS + [0.5, 1.5, 2.5, -0.5, 2.0000001, 1e-9,
              float("inf"), float("-inf"), float("nan"), 10 ** 6, 1e6, 64, 64.0, "2", None, complex(2, 0), (2,), [2]]
 
 
@@ -162,9 +164,10 @@ def run_c15(tier, seed):
 
 
 # ================================================================ C16
-N_MENU = list(range(-3, 8)) + [float(k) for k in range(-3, 8)] + [0.5, 1.5, 2.5, -1.5, 1e-9, 0.999999, 3.0000001,
+N_MENU = list(range(-3, 8)) + [float(k) for k in range(-3, 8)] + NEAR_INTEGERS + [0.5, 1.5, 2.5, -1.5, 1e-9, 0.999999, 3.0000001,
           float("inf"), float("-inf"), float("nan"), 1e30, 10 ** 30, 2 ** 70, "2", "", None, (2,), [2], complex(2, 0), b"2"]
-BASE_MENU = [-2, -0.5, -1e-300, 0, 0.0, -0.0, 1e-300, 0.25, 0.5, 1, 1.0, 1.0000001, 2, 2.0, 3, 10, math.e, math.pi, 1e300,
+BASE_MENU = [-2, -0.5, -1e-300, -5e-324, 0, 0.0, -0.0, 5e-324, 1e-300, 0.25, 0.5, 0.9999999999999999, 1, 1.0, 1.0000000000000002,
+             1.0000001, 2, 2.0, 3, 10, math.e, math.pi, 1e300,
              "2", "", None, (2,), [2], complex(2, 0)]
 FOREIGN_ARGS = [3, 2.0, 0, "x", "Variable(\"x\")", None, True, (1,), [1], object(), complex(0, 1), float("nan"), type, b"x"]
 CONST_VALUES = [0, 1, -1, 2, 2.0, 0.5, -0.25, 1e-300, 1e300, 10 ** 20, -7, 3.141592653589793]
